@@ -520,7 +520,9 @@ def _ev_call(self, n):
                         return self.binop(ast.Mult(), recv, arg0, n)       # M.dot(scalar) = M * scalar
                     return vbinop(self, ast.MatMult(), recv, arg0, n)
                 if n.func.attr == "max" and not n.args and not n.keywords and recv.k == "arr" and recv.t.ndim == 2 \
-                        and recv.t.elem is not None and recv.t.elem.kind == "float":
+                        and recv.t.elem is not None and recv.t.elem.kind == "float" and getattr(self.c, "amax_spec", False):
+                    # (only for contracts whose specification speaks about amax(M); elsewhere min / max keep the paired
+                    #  lo <= every entry <= hi model of the engine)
                     return Val("float", amax_of(self, recv.t), PYFLOAT)
                 if n.func.attr == "diagonal" and not n.args and not n.keywords and recv.k == "arr" and recv.t.ndim == 2:
                     mat = recv.t
